@@ -193,7 +193,11 @@ func (i *interpreter) yield(what string) {
 	}
 	var next *thread
 	curEnabled := en[0] == i.cur
-	if curEnabled && (len(en) == 1 || s.preemptions >= i.run.cfg.MaxPreempt) {
+	maxPreempt := i.run.cfg.MaxPreempt
+	if i.run.maxPreempt > 0 && i.run.maxPreempt < maxPreempt {
+		maxPreempt = i.run.maxPreempt // the harness's own, tighter bound (sym.Preemptions)
+	}
+	if curEnabled && (len(en) == 1 || s.preemptions >= maxPreempt) {
 		next = i.cur
 		// recorded although forced: the native replay follows the schedule
 		// record by record (harness/sym/sched.go)
